@@ -18,7 +18,14 @@ Record xcall := XC { ic_entries : list ientry; xc_sent : Z; xc_errno : N }.
 
 Inductive case :=
 | CBatch (cap : N) (gso : bool) (maxSegs : N) (pkts : list (N * N * bool)) (script : list (Z * N))
-         (calls : list icall) (ret : N) (err : bool) (gso_after : bool) (panicked : bool).
+         (calls : list icall) (ret : N) (err : bool) (gso_after : bool) (panicked : bool)
+(* the same, where maxSegs is what the real gsoMaxSegments returned for a kernel release (major, minor) and the fake
+   kernel was the kernel of that release (EINVAL above its segment limit) *)
+| CBatchRel (major minor : N) (cap : N) (gso : bool) (maxSegs : N) (pkts : list (N * N * bool)) (script : list (Z * N))
+         (calls : list icall) (ret : N) (err : bool) (gso_after : bool) (panicked : bool)
+(* the real gsoMaxSegments / parseRelease on a release string built from (major, minor) plus a suffix (wf = true),
+   or on a malformed string (wf = false): what parseRelease returned and the limit *)
+| CRelease (wf : bool) (major minor : N) (parsed_major parsed_minor : Z) (limit : Z).
 
 Definition bad_entry : ientry := IE [] None 999999.
 Fixpoint slot_get (slots : list (N * ientry)) (i : N) : ientry :=
@@ -115,18 +122,35 @@ Definition spec_ok (gso : bool) (maxSegs : N) (pkts : list pkt) (calls : list xc
   && order_ok pkts (sent_idx calls)                               (* per-destination order *)
   && forallb (fun c => forallb (entry_ok gso maxSegs pkts) (ic_entries c)) calls.   (* run geometry, every offered slot *)
 
+(* The documented rule (udp_linux_writebatch.go, gsoMaxSegments; linux/udp.h UDP_MAX_SEGMENTS): the kernel accepts
+   64 segments per UDP_SEGMENT send before Linux 6.9 and 128 from 6.9 on - versions compare as pairs - and one of them
+   is taken by the header accounting; an unparsable release gets the conservative value. *)
+Definition lex_leb (a b : N * N) : bool := (fst a <? fst b) || ((fst a =? fst b) && (snd a <=? snd b)).
+Definition udp_max_segments (major minor : N) : N := if lex_leb (6, 9) (major, minor) then 128 else 64.
+Definition doc_segment_limit (wf : bool) (major minor : N) : N := if wf then udp_max_segments major minor - 1 else 63.
+
+Definition check_batch (spec_segs : N) cap gso maxSegs pk script calls ret (err gso_after panicked : bool) : list N :=
+  let pkts := mk_pkts pk in
+  let r := write_batch_cap (N.to_nat cap) gso (N.to_nat maxSegs) pkts (orc_of_script script) in
+  let out_ok := match r_out r with
+                | Done n => (n =? ret) && negb err
+                | NoProgress n => (n =? ret) && err
+                | _ => false
+                end in
+  let xcalls := expand [] calls in
+  flag 1 (list_eqb xcall_eqb (map view_call (r_calls r)) xcalls && out_ok
+          && Bool.eqb (r_gso r) gso_after && negb panicked)
+  ++ flag 2 (spec_ok gso spec_segs pkts xcalls ret).
+
 Definition check_case (c : case) : list N :=
   match c with
   | CBatch cap gso maxSegs pk script calls ret err gso_after panicked =>
-      let pkts := mk_pkts pk in
-      let r := write_batch_cap (N.to_nat cap) gso (N.to_nat maxSegs) pkts (orc_of_script script) in
-      let out_ok := match r_out r with
-                    | Done n => (n =? ret) && negb err
-                    | NoProgress n => (n =? ret) && err
-                    | _ => false
-                    end in
-      let xcalls := expand [] calls in
-      flag 1 (list_eqb xcall_eqb (map view_call (r_calls r)) xcalls && out_ok
-              && Bool.eqb (r_gso r) gso_after && negb panicked)
-      ++ flag 2 (spec_ok gso maxSegs pkts xcalls ret)
+      check_batch maxSegs cap gso maxSegs pk script calls ret err gso_after panicked
+  | CBatchRel major minor cap gso maxSegs pk script calls ret err gso_after panicked =>
+      (* the segment limit of the property is the kernel's, not whatever the gate returned *)
+      check_batch (doc_segment_limit true major minor) cap gso maxSegs pk script calls ret err gso_after panicked
+  | CRelease wf major minor pmaj pmin limit =>
+      flag 1 (Z.of_N (gso_max_segments pmaj pmin) =? limit)%Z
+      ++ flag 2 ((Z.of_N (doc_segment_limit wf major minor) =? limit)%Z
+                 && (negb wf || ((pmaj =? Z.of_N major)%Z && (pmin =? Z.of_N minor)%Z)))
   end.
